@@ -205,7 +205,7 @@ func runGF(cfg *config, o *out) error {
 			}
 		}
 		if c.prerun {
-			if st, outp := runIn(root, bin, "./p"); st != 0 {
+			if st, outp := runCff(root, bin, "./p"); st != 0 {
 				c.err = fmt.Errorf("prerun failed (%d): %s", st, outp)
 				return
 			}
@@ -216,7 +216,7 @@ func runGF(cfg *config, o *out) error {
 			return
 		}
 		args := append(append([]string{}, c.flags...), "./p")
-		c.exit, c.output = runIn(root, bin, args...)
+		c.exit, c.output = runCff(root, bin, args...)
 		after, err := snapshot(root)
 		if err != nil {
 			c.err = err
